@@ -133,6 +133,13 @@ impl CodeCache {
     let mut block_ended = false;
     let mut index = ip;
     while !block_ended {
+      // A block never extends past the 16 KiB region it starts in: what is
+      // mapped behind the boundary (the switchable bank after bank 0) changes
+      // independently of the key this block is cached under. Execution simply
+      // continues with a new block at the boundary.
+      if index != ip && (index ^ ip) & !0x3fff != 0 {
+        break;
+      }
       let code_slice = self.get_executable_memory_segment(index, mem);
       if code_slice.len() < 1 {
         break;
